@@ -71,7 +71,14 @@ func checkProve(c proveCase) (h.Info, error) {
 	if err != nil || !bytes.Equal(mb, pi) {
 		return info, fmt.Errorf("MarshalBinary = %x, %v", mb, err)
 	}
-	// determinism
+	// determinism, also after the caller overwrote everything the first call handed out
+	for i := range pi {
+		pi[i] ^= 0xff
+	}
+	for i := range beta {
+		beta[i] ^= 0xff
+	}
+	pi = append([]byte{}, wantPi...)
 	if again := vrf.Prove(priv, c.Alpha).Bytes(); !bytes.Equal(again, pi) {
 		return info, fmt.Errorf("Prove is not deterministic")
 	}
@@ -90,6 +97,9 @@ func genProve(t *rapid.T) proveCase {
 		seed = h.BytesN(t, "seed", 32)
 	default:
 		seed = make(h.B, 32)
+	}
+	if h.Pick(t, "along", 8, 1) == 1 { // alpha spanning many SHA-512 blocks
+		return proveCase{seed, h.BytesN(t, "alphalong", h.OneOf(t, "al", 127, 128, 129, 1000, 2048, 5000))}
 	}
 	return proveCase{seed, h.Bytes(t, "alpha", 0, 100)}
 }
